@@ -131,7 +131,19 @@ func checkC10(c *Ctx) {
 // sourcesOf: the TOML leaf fields occurring in the structural term of v (data), plus the leaf
 // fields occurring in the branch conditions that select between phi edges (control).
 func sourcesOf(pf *parserFacts, v ssa.Value, leaves map[*types.Var]string) (data, ctl map[string]bool) {
+	return sourcesOfBound(pf, v, leaves, nil)
+}
+
+// sourcesOfBound: as sourcesOf, for the body of a loop over a constant local table taken at row bind.Index: a column of
+// the current element stands for what that row holds in it.
+func sourcesOfBound(pf *parserFacts, v ssa.Value, leaves map[*types.Var]string, bind *tableBinding) (data, ctl map[string]bool) {
 	data, ctl = map[string]bool{}, map[string]bool{}
+	var boundRow map[int]ssa.Value
+	if bind != nil {
+		if ct, ok := constTableOf(bind.Table); ok {
+			boundRow = ct.rows[bind.Index]
+		}
+	}
 	seen := map[ssa.Value]bool{}
 	var collectTermIn func(fn *ssa.Function, t *Term, into map[string]bool, depth int)
 	collectTermIn = func(fn *ssa.Function, t *Term, into map[string]bool, depth int) {
@@ -209,6 +221,12 @@ func sourcesOf(pf *parserFacts, v ssa.Value, leaves map[*types.Var]string) (data
 			return
 		}
 		seen[v] = true
+		if boundRow != nil {
+			if ta, k, ok := elemFieldOf(v); ok && ta == bind.Table {
+				rec(boundRow[k], depth+1)
+				return
+			}
+		}
 		fn := parentOf(v)
 		if fn == nil {
 			return
@@ -370,7 +388,7 @@ func ruleFieldCorrespondenceFor(c *Ctx, pf *parserFacts, leaves map[*types.Var]s
 		}
 		for _, fs := range stores {
 			dest := typ + "." + fs.Field.Name()
-			data, ctl := sourcesOf(pf, fs.Val, leaves)
+			data, ctl := sourcesOfBound(pf, fs.Val, leaves, fs.Bind)
 			if _, isConst := fs.Val.(*ssa.Const); isConst && fs.Store.Block() != fs.Lit.Block() {
 				// a constant assigned to the field under a condition (entry.Bidirectional = true inside `if x != nil`): what the
 				// conditions between the literal and the store read decides the field
@@ -520,7 +538,7 @@ func (pf *parserFacts) inputIDStores() []fieldStore {
 								}
 								for _, r3 := range *lfa.Referrers() {
 									if st2, ok := r3.(*ssa.Store); ok && st2.Addr == ssa.Value(lfa) {
-										out = append(out, fieldStore{lit, fieldOfAddr(lfa), st2.Val, st2})
+										out = append(out, fieldStore{lit, fieldOfAddr(lfa), st2.Val, st2, nil})
 									}
 								}
 							}
@@ -534,7 +552,7 @@ func (pf *parserFacts) inputIDStores() []fieldStore {
 				}
 				for _, r3 := range *fa2.Referrers() {
 					if st, ok := r3.(*ssa.Store); ok && st.Addr == fa2 {
-						out = append(out, fieldStore{lit, fieldOfAddr(fa2), st.Val, st})
+						out = append(out, fieldStore{lit, fieldOfAddr(fa2), st.Val, st, nil})
 					}
 				}
 			}
